@@ -3,7 +3,8 @@
    `ev_inscope ev` = the group's member parser keeps its scope and consumes only inside it; it is
    proved below for the shapes the property quantifies over (flags, arguments, positionals under optional
    / many / some / count / last / fallback / guard / parse / map / hide, combined by construct!). *)
-From BpafLemmas Require Import Tac Find Reach Ledger NoLoss C05Lemmas AdjLaws.
+From BpafModel Require Import Wf.
+From BpafLemmas Require Import Tac Find Reach Ledger NoLoss C05Lemmas AdjLaws AdjTotal.
 
 (* The block theorem.  If `construct!(..).adjacent()` yields a value, there is ONE interval [a, b)
    of the line such that every item of it that was available is consumed by the group, nothing
@@ -105,6 +106,21 @@ Proof.
   intros; apply con_inscope; assumption.
 Qed.
 Print Assumptions C19_members_inscope.
+
+(* ... and by groups themselves: a group -- whatever its member parser does inside the windows the group opens, on
+   success, on failure (the caller's scope is handed back: fix: commit) and on the panic exits -- keeps the caller's scope
+   and ledger length and consumes only inside the caller's scope.  So a group can be a member of a group: the block
+   theorems above hold for NESTED groups (AdjTotal.v, invariant W: a window's state differs from the caller's only
+   inside the caller's scope, and its available items lie inside it) *)
+Theorem C19_group_is_a_member :
+  forall ev, ev_inscope ev -> ev_reach (fun _ => True) ev -> forall fi, ev_inscope (eval_adjacent ev fi).
+Proof. exact adjacent_inscope. Qed.
+Print Assumptions C19_group_is_a_member.
+
+Theorem C19_every_member_inscope :
+  forall env p, memb p = true -> ev_inscope (eval env p).
+Proof. exact (fun env => proj1 (memb_inscope env)). Qed.
+Print Assumptions C19_every_member_inscope.
 
 (* repeated groups: blocks in command-line order, and an interrupted block is not a value *)
 Example C19_example :
